@@ -631,7 +631,7 @@ Proof. intros x y H1 H2. apply Z.ltb_ge in H1. apply Z.ltb_ge in H2. lia. Qed.
 (* ---- non-vacuity of the all-inputs theorem on a WEIGHTED MULTIGRAPH with a doubled edge: the pair
    1-2 is joined by two parallel edges (weights 2 and 3, collapsed to 5 by to_single_edges); Louvain
    returns one level, {1,2} {3,4} ---- *)
-Local Notation nc_ex_graph :=
+Notation nc_ex_graph :=
   (new_from_nodes_and_edges Z.eqb Z.ltb
     [mknode 1%Z (None : option Z); mknode 2%Z None; mknode 3%Z None; mknode 4%Z None]
     [mkedge 1%Z 2%Z (Some 2%Z) None; mkedge 2%Z 1%Z (Some 3%Z) None; mkedge 3%Z 4%Z (Some 4%Z) None;
@@ -685,7 +685,7 @@ Qed.
    Louvain sees the plain 4-cycle and (visiting order 0 1 2 3 - what rand 0.8 derives from seed 0)
    returns the single level {1,2} {3,4}, with no tie.  On the input multigraph (m = 10, every degree
    5) that level has modularity 2 (1/10 - 1/4) = -3/10, the all-singletons partition -1/4. ---- *)
-Local Notation rf_ex_graph :=
+Notation rf_ex_graph :=
   (new_from_nodes_and_edges Z.eqb Z.ltb
     [mknode 1%Z (None : option Z); mknode 2%Z None; mknode 3%Z None; mknode 4%Z None]
     ([mkedge 1%Z 2%Z None None; mkedge 3%Z 4%Z None None]
